@@ -9,6 +9,12 @@ def pair(rng, cid, c, cb=None):
     enc = ("dd", c, [0xDD, c]) if cb is None else ("ddcb", cb, [0xDD, 0xCB, None, cb])
     la = cases.make_case(rng, cid + "a", enc)
     t = la.split()
+    if rng.chance(1, 2):
+        # index registers with edge bytes (carries between the halves: INC IXL at xxFFh, DEC IXH at 00xxh, wrap of IX+d)
+        eb = lambda: rng.choice([0x00, 0x01, 0x7F, 0x80, 0xFE, 0xFF, rng.below(256)])
+        t[5 + 18] = str((eb() << 8) | eb())
+        t[5 + 19] = str((eb() << 8) | eb())
+        la = " ".join(t)
     if rng.chance(1, 6) or (cb is None and c == 0xE3 and rng.chance(1, 2)):
         # the index register equal to the word on the stack (EX (SP),IX with nothing to exchange, PUSH/POP coincidences)
         t = with_ix_from_stack(t)
